@@ -321,8 +321,38 @@ Inductive cbody :=
 | BEmpty (inner : list ptok)        (* {} with white space inside *)
 | BWord.                            (* no braces: the name is one word *)
 
+(* modifier characters after the marker, in any order; `&` may carry the data of an
+   intermediate-preparation reference: &(~1) one step back, &(2) step 2, &(=2) section 2, &(=~1) *)
+Record ispec := {
+  is_rel : bool; is_sec : bool; is_val : str;               (* `~`, `=`, the digits *)
+  is_b1 : list ptok; is_b2 : list ptok; is_b3 : list ptok; is_b4 : list ptok   (* blanks inside the parentheses *)
+}.
+Inductive mitem := MC (k : tkind) | MRef (i : ispec).
+
+Definition mod_char (k : tkind) : N :=
+  match k with KAt => 64 | KAnd => 38 | KQuestion => 63 | KPlus => 43 | KMinus => 45 | _ => 0 end.
+Definition print_inter (i : ispec) : list ptok :=
+  (KOpenParen, [40]) :: is_b1 i ++ (if is_sec i then (KEq, [61]) :: is_b2 i else []) ++
+  (if is_rel i then (KTilde, [126]) :: is_b3 i else []) ++ (KInt, is_val i) :: is_b4 i ++ [(KCloseParen, [41])].
+Definition print_mitem (m : mitem) : list ptok :=
+  match m with MC k => [(k, [mod_char k])] | MRef i => (KAnd, [38]) :: print_inter i end.
+Definition print_mods (ms : list mitem) : list ptok := concat (map print_mitem ms).
+Definition mitem_kind (m : mitem) : tkind := match m with MC k => k | MRef _ => KAnd end.
+Definition kind_bit (k : tkind) : N := match mod_bit k with Some b => b | None => 0 end.
+Definition mods_bits (ms : list mitem) : N := fold_left (fun acc m => N.lor acc (kind_bit (mitem_kind m))) ms 0.
+Fixpoint mods_inter (ms : list mitem) : option (bool * bool * N) :=
+  match ms with
+  | [] => None
+  | MRef i :: _ => Some (is_rel i, is_sec i, digits_val (is_val i))
+  | MC _ :: r => mods_inter r
+  end.
+Fixpoint nodup_k (ks : list tkind) : bool :=
+  match ks with [] => true | k :: r => negb (existsb (tk_eqb k) r) && nodup_k r end.
+Definition wsb_ok (p : list ptok) : bool := forallb (fun t => is_ws_block (fst t) && shape_ok t) p.
+
 Record cspec := {
   cs_kind : ckind;
+  cs_mods : list mitem;
   cs_name : list ptok;
   cs_alias : option (list ptok);     (* name|alias *)
   cs_body : cbody;
@@ -348,7 +378,7 @@ Definition print_cbody (b : cbody) : list ptok :=
 Definition print_cnote (c : cspec) : list ptok :=
   match cs_note c with Some n => op_p :: n ++ [cp_p] | None => [] end.
 Definition print_comp (c : cspec) : list ptok :=
-  marker_p (cs_kind c) :: print_cname c ++ print_cbody (cs_body c) ++ print_cnote c.
+  marker_p (cs_kind c) :: print_mods (cs_mods c) ++ print_cname c ++ print_cbody (cs_body c) ++ print_cnote c.
 
 Definition denote_cqty (b : cbody) : option (value * bool * option str) :=
   match b with BQty q _ => Some (denote_qty q) | _ => None end.
@@ -358,8 +388,8 @@ Definition denote_comp (c : cspec) : ev_spec :=
   let alias := option_map (fun a => clean (toks_text a)) (cs_alias c) in
   let note := option_map (fun n => clean (toks_text n)) (cs_note c) in
   match cs_kind c with
-  | CIgr => SIngredient 0 None name alias (denote_cqty (cs_body c)) note
-  | CCw => SCookware 0 name alias (option_map (fun q => (fst (fst q), snd (fst q))) (denote_cqty (cs_body c))) note
+  | CIgr => SIngredient (mods_bits (cs_mods c)) (mods_inter (cs_mods c)) name alias (denote_cqty (cs_body c)) note
+  | CCw => SCookware (mods_bits (cs_mods c)) name alias (option_map (fun q => (fst (fst q), snd (fst q))) (denote_cqty (cs_body c))) note
   | CTm => STimer (if str_blank (toks_text (cs_name c)) then None else Some name) (denote_cqty (cs_body c))
   end.
 
@@ -375,8 +405,18 @@ Definition ctext_ok (p : list ptok) : bool :=
 Definition comp_wf (cfg : pcfg) (c : cspec) : bool :=
   negb (p_strict_escape cfg) &&
   ctext_ok (cs_name c) &&
-  (* the token after the marker is not a modifier character (modifiers: see print_comp_mods) *)
+  (* modifiers: distinct characters; `&(..)` needs INTERMEDIATE_PREPARATIONS; cookware takes no `@` and no
+     data; timers take none; what follows them is neither a modifier character nor `(` *)
+  (is_nil (cs_mods c) || has cfg X_COMPONENT_MODIFIERS) &&
+  nodup_k (map mitem_kind (cs_mods c)) &&
+  forallb (fun m => match m with
+                    | MC k => is_modifier_k k && match cs_kind c, k with CCw, KAt => false | CTm, _ => false | _, _ => true end
+                    | MRef i => has cfg X_INTERMEDIATE_PREPARATIONS && wsb_ok (is_b1 i) && wsb_ok (is_b2 i) &&
+                                wsb_ok (is_b3 i) && wsb_ok (is_b4 i) && (digits_val (is_val i) <=? i16_max) &&
+                                match cs_kind c with CIgr => true | _ => false end
+                    end) (cs_mods c) &&
   negb (is_modifier_k (head_kind (print_cname c ++ print_cbody (cs_body c)))) &&
+  negb (tk_eqb (head_kind (print_cname c ++ print_cbody (cs_body c))) KOpenParen) &&
   (* name *)
   match cs_kind c, cs_body c with
   | CTm, BQty _ _ => true
@@ -449,10 +489,41 @@ Fixpoint items_ok (cfg : pcfg) (l : list item) : bool :=
   end.
 
 (* ---------------------------------------------------------------- blocks *)
+(* a line of a `>` text block: the marker (required on the first line), one white-space token
+   after it, the text *)
+Record tline := { tl_marker : bool; tl_ws : list ptok; tl_toks : list ptok }.
+
 Inductive block :=
 | BkMeta (key value : list ptok)                       (* >> key : value *)
 | BkSection (n1 : nat) (name : list ptok) (n2 : nat) (trail : list ptok)   (* =.. name =.. *)
-| BkStep (items : list item).
+| BkStep (items : list item)
+| BkText (lines : list tline).                         (* > text, continued with or without `>` *)
+
+Definition nl_p : ptok := (KNewline, [10]).
+Definition tstep_p : ptok := (KTextStep, [62]).
+Definition print_tline (l : tline) : list ptok :=
+  (if tl_marker l then [tstep_p] else []) ++ tl_ws l ++ tl_toks l.
+Fixpoint print_tlines (ls : list tline) : list ptok :=
+  match ls with
+  | [] => []
+  | [l] => print_tline l
+  | l :: r => print_tline l ++ nl_p :: print_tlines r
+  end.
+Fixpoint denote_tlines (ls : list tline) : list ev_spec :=
+  match ls with
+  | [] => []
+  | [l] => [SText (toks_text (tl_toks l))]
+  | l :: r => SText (toks_text (tl_toks l) ++ [32]) :: denote_tlines r
+  end.
+Definition tline_ok (l : tline) : bool :=
+  forallb shape_ok (tl_toks l) && no_kinds [KNewline] (tl_toks l) && negb (str_blank (toks_text (tl_toks l))) &&
+  (if tl_marker l
+   then match tl_ws l with
+        | [] => negb (tk_eqb (head_kind (tl_toks l)) KWs)
+        | [w] => tk_eqb (fst w) KWs && shape_ok w
+        | _ => false
+        end
+   else is_nil (tl_ws l) && negb (tk_eqb (head_kind (tl_toks l)) KTextStep)).
 
 Definition meta_p : ptok := (KMeta, [62; 62]).
 Definition colon_p : ptok := (KColon, [58]).
@@ -461,6 +532,7 @@ Definition print_block (b : block) : list ptok :=
   | BkMeta k v => meta_p :: k ++ colon_p :: v
   | BkSection n1 name n2 trail => eq_p :: repeat eq_p n1 ++ name ++ repeat eq_p n2 ++ trail
   | BkStep items => print_items items
+  | BkText ls => print_tlines ls
   end.
 
 Definition denote_block (b : block) : list ev_spec :=
@@ -468,6 +540,7 @@ Definition denote_block (b : block) : list ev_spec :=
   | BkMeta k v => [SMeta (clean (toks_text k)) (trim (toks_text v))]
   | BkSection _ name _ _ => [SSection (Some (clean (toks_text name)))]
   | BkStep items => SStart true :: map denote_item items ++ [SEnd true]
+  | BkText ls => SStart false :: denote_tlines ls ++ [SEnd false]
   end.
 
 Definition is_empty_k (k : tkind) : bool :=
@@ -485,4 +558,6 @@ Definition block_ok (cfg : pcfg) (b : block) : bool :=
       items_ok cfg items &&
       negb (forallb (fun t => is_empty_k (fst t)) (print_items items)) &&
       negb (existsb (tk_eqb (head_kind (print_items items))) [KMeta; KEq; KTextStep])
+  | BkText ls =>
+      forallb tline_ok ls && match ls with l :: _ => tl_marker l | [] => false end
   end.
